@@ -371,12 +371,41 @@ def _need(o, name):
         raise HarnessError(f"adapter: {type(o).__name__} has no attribute {name}")
 
 
+def _find_attr(o, preferred, pred, what):
+    """Private attributes are looked up by name first, then by the TYPE of what they hold, so that a
+    rename inside the library does not break the harness."""
+    v = getattr(o, preferred, None)
+    if v is not None and pred(v):
+        return v
+    hits = [x for x in vars(o).values() if pred(x)]
+    if len(hits) == 1:
+        return hits[0]
+    if v is None and not hits:
+        return None
+    raise HarnessError(f"adapter: cannot identify {what} of {type(o).__name__}")
+
+
 def session_of(c):
-    return _need(c, "_session")
+    from asyncfix.session import FIXSession
+
+    s = _find_attr(c, "_session", lambda x: isinstance(x, FIXSession), "the session")
+    if s is None:
+        raise HarnessError("adapter: connection has no FIXSession attribute")
+    return s
 
 
 def journal_of(c):
-    return _need(c, "_journaler")
+    from asyncfix.journaler import Journaler
+
+    return _find_attr(c, "_journaler", lambda x: isinstance(x, Journaler), "the journaler")
+
+
+def reader_of(c):
+    return _find_attr(c, "_socket_reader", lambda x: isinstance(x, FakeReader), "the stream reader")
+
+
+def writer_of(c):
+    return _find_attr(c, "_socket_writer", lambda x: isinstance(x, FakeWriter), "the stream writer")
 
 
 def num_in(c):
@@ -388,7 +417,13 @@ def num_out(c):
 
 
 def msg_buffer(c):
-    return _need(c, "_msg_buffer")
+    b = getattr(c, "_msg_buffer", None)
+    if isinstance(b, (bytes, bytearray)):
+        return b
+    hits = [x for x in vars(c).values() if isinstance(x, (bytes, bytearray))]
+    if len(hits) == 1:
+        return hits[0]
+    raise HarnessError("adapter: cannot identify the receive buffer of the connection")
 
 
 def set_state(c, st):
@@ -472,8 +507,8 @@ def conn_key(c, clock_rel=True):
         items.append((k, v))
     s = session_of(c)
     items.append(("S", tuple(prim_attrs(s))))
-    items.append(("has_r", _need(c, "_socket_reader") is not None))
-    items.append(("has_w", _need(c, "_socket_writer") is not None))
+    items.append(("has_r", reader_of(c) is not None))
+    items.append(("has_w", writer_of(c) is not None))
     return tuple(items)
 
 
